@@ -51,7 +51,7 @@ open JsightVerif.Model JsightVerif.Model.Build JsightVerif.Gen
 theorem C03_accepted_names_distinct (roots : List DT) (rootFile : Bytes) (banned : List Kind)
     (content : Bytes → Bytes) (b : Built) (h : build roots rootFile banned content = .ok b) :
     (serverNames b.cat).Nodup ∧ (typeNames b.cat).Nodup ∧ (ids b.cat).Nodup := by
-  obtain ⟨_, _, _, _, tags, enums, s, _, _, _, hadd, hc⟩ := build_stages roots rootFile banned content b h
+  obtain ⟨_, _, _, _, tags, enums, s, _, _, _, _, hadd, hc⟩ := build_stages roots rootFile banned content b h
   rw [hc]
   exact ⟨(addList_servers content b.expanded _ s hadd).2 (by simp [serverNames]),
          (addList_types content b.expanded _ s hadd).2 (by simp [typeNames]),
@@ -63,7 +63,7 @@ theorem C03_duplicate_server_refused (roots : List DT) (rootFile : Bytes) (banne
     (content : Bytes → Bytes) (b : Built) (h : build roots rootFile banned content = .ok b) :
     (collectList (fun d _ => newServers d) b.expanded []).Nodup ∧
     (collectList (fun d _ => newTypes d) b.expanded []).Nodup := by
-  obtain ⟨_, _, _, _, tags, enums, s, _, _, _, hadd, hc⟩ := build_stages roots rootFile banned content b h
+  obtain ⟨_, _, _, _, tags, enums, s, _, _, _, _, hadd, hc⟩ := build_stages roots rootFile banned content b h
   have hs := addList_servers content b.expanded _ s hadd
   have ht := addList_types content b.expanded _ s hadd
   constructor
